@@ -142,6 +142,12 @@ def generate(tier, seed, casedir, variant):
             if j % 2 == 0 and kind == "nonstatio":
                 cfg["nt_start"], cfg["n_start"] = max(cfg["nt_start"], cfg["n_start"] + 2, cfg["sel_t"]), cfg["n_start"]
                 cfg["nt"] = cfg["nt_start"] + 3 * cfg["sel_t"]
+                if j % 4 == 0:       # the time store fills first while space still has room: refinement must stop there, nothing active is overwritten
+                    cfg["start"], cfg["every"], cfg["iters"] = 0, 1, 8
+                    cfg["n"] = cfg["n_start"] + 8 * cfg["sel_x"]
+                else:                # ... and the other way round
+                    cfg["start"], cfg["every"], cfg["iters"] = 0, 1, 8
+                    cfg["n"] = cfg["n_start"] + 2 * cfg["sel_x"]; cfg["nt"] = cfg["nt_start"] + 8 * cfg["sel_t"]
             nruns += 1
             try:
                 steps, fails = observe(cfg)
@@ -163,7 +169,7 @@ def generate(tier, seed, casedir, variant):
                 cid += 1
     write_cases(casedir, "C17", "R_C17", variant, cases, chunk=40)
     return dict(meta=meta, oracle_violations=viol, evaluations=len(cases), distinct_nontrivial=len(nontrivial),
-                rule="random generators of the three kinds (1-D and 2-D, equal and unequal time/space starts) stepped through trigger_rar with a batch draw before every iteration; one case per refinement step that happened (hook record + stores/masks before and after); all are non-trivial; distinct by (run, iteration)",
+                rule="random generators of the three kinds (1-D and 2-D, equal and unequal time/space starts, runs in which the time store or the space store fills first and refinement has to stop) stepped through trigger_rar with a batch draw before every iteration; one case per refinement step that happened (hook record + stores/masks before and after); all are non-trivial; distinct by (run, iteration)",
                 samples=samples, distribution=dict(dist, runs=nruns), oracle_checks=len(cases) + nruns)
 
 
